@@ -66,7 +66,7 @@ def build():
             }
         ],
         "checks": checks,
-        "notes": "Static analysis only. Exit 0 = all obligations discharged; exit 1 + VIOLATION line = an extracted object contradicts its oracle; exit 2 + ANALYSIS-ERROR = the analyser cannot decide (vanished anchor, unknown idiom, vacuity guard). See DESIGN.md.",
+        "notes": "Static analysis only. Exit 0 = all obligations discharged; exit 1 + VIOLATION line = an extracted object contradicts its oracle (reported even if a later rule instance could not be analysed); exit 2 + ANALYSIS-ERROR = the analyser cannot decide and found no contradiction (vanished anchor, unknown idiom, vacuity guard). See DESIGN.md.",
         "not_applicable": na,
     }
     with open(os.path.join(ROOT, "MANIFEST.json"), "w") as f:
